@@ -474,7 +474,7 @@ func (w *world) do(o op) (obs string) {
 	if v := fctx.Response.Header.Peek(headerName); len(v) > 0 {
 		hd = "h" + gen.Hex(string(v))
 	}
-	acts := "-"
+	acts := "noacts"
 	if len(w.acts) > 0 {
 		acts = strings.Join(w.acts, ".")
 	}
